@@ -104,6 +104,10 @@ func C19(c *core.Ctx) {
 	if c.HasViolation() || c.Expired() {
 		return
 	}
+	c19silentFull(c)
+	if c.HasViolation() || c.Expired() {
+		return
+	}
 	c19sched(c)
 }
 
